@@ -5,8 +5,11 @@
     * exact form, when no key of `ps` is the `seg.name` of a node of the tree: `params = ps ++ captures chain`, which is
       `setAll ps (captures chain)` (the `AMap.set` fold);
     * lookup form, always: route captures win; keys that are no name of the tree keep their incoming value; any other
-      key has its incoming value or none (it may have been deleted when an abandoned branch with that name was undone:
-      `erase` after `set` does not restore the overwritten value).
+      key has its incoming value or none.  (Before the D30 repair it could indeed be gone: the undo of an abandoned
+      branch with that name was `erase`, which does not restore the value that `set` overwrote.  The repaired undo,
+      `restoreParam`, does; the exact law "hit = `setAll ps (captures chain)`, 404 = `ps`" for incoming parameters with one
+      entry per key is `P19.found_exact` / `P19.notFound_exact` in `RestoreGroup.lean`.  The lookup forms of this file
+      stay true and need no hypothesis on `ps`.)
 -/
 import Mux.Proofs.GroupLiftMorph
 import Mux.Proofs.ReachAll
